@@ -16,6 +16,8 @@ class FuncInfo(object):
         self.cls = cls
         self.outer = outer
         self.name = node.name
+        self.is_static = False
+        self.is_classmethod = False
         if cls is not None:
             self.qualname = '%s.%s.%s' % (module.name, cls.name, node.name)
         elif outer is not None:
@@ -54,6 +56,8 @@ class ClassInfo(object):
             if isinstance(st, ast.FunctionDef):
                 fi = FuncInfo(module, st, cls=self)
                 decos = [ast.unparse(d) for d in st.decorator_list]
+                fi.is_static = 'staticmethod' in decos
+                fi.is_classmethod = 'classmethod' in decos
                 if 'property' in decos:
                     self.getters[st.name] = fi
                 elif any(d.endswith('.setter') for d in decos):
